@@ -40,7 +40,9 @@ def run(v, tier, seed):
     def explore(iters, ntraces):
         rep = W("ex.ndjson"); trp = W("trace")
         rc, out, err = vlib.run([tp, "explore", str(iters), str(seed), rep, trp, str(ntraces)], timeout=(1200 if tier == "quick" else 3400))
-        if rc != 0: raise vlib.MachineryError("tp explore failed rc=%s: %s %s" % (rc, out[-500:], err[-1500:]))
+        if rc != 0:
+            vlib.harness_failed(v, rc, out, err, "tp explore (seed %d)" % seed, "crash")
+            return [{"summary": True, "executions": 0, "yields": 0, "events": 0, "traces_written": 0, "trace_lines": 0, "messages_handled": 0, "messages_dropped_by_shutdown": 0, "distinct_plans": 0}], None
         return vlib.read_ndjson(rep), trp
 
     def validate(trp, k):
@@ -63,7 +65,7 @@ def run(v, tier, seed):
             jobs += [ex.submit(model_check, "3c2t", 3, 2, 2, True), ex.submit(model_check, "2c2t3m", 2, 2, 3, True), ex.submit(model_check, "3c3t_noshut", 3, 3, 2, False)]
         f_ex = ex.submit(explore, iters, ntr)
         rows, trp = f_ex.result()
-        f_val = [ex.submit(validate, trp, k) for k in (1, 2, 3)]
+        f_val = [ex.submit(validate, trp, k) for k in (1, 2, 3)] if trp else []
         for f in jobs:
             tag, r = f.result(); tot["states"] += r.distinct; tot["transitions"] += r.generated
             mc_notes.append({"instance": tag, "distinct": r.distinct, "generated": r.generated, "depth": r.depth, "wall_s": round(r.wall, 1), "taken": {a: r.coverage.get(a, (0, 0))[0] for a in ACTIONS}})
@@ -78,7 +80,7 @@ def run(v, tier, seed):
             elif not accepted:
                 v.drift += 1
                 vlib.log("DRIFT property=C19 recorded trace (pool of %d) is not a behaviour of TPImpl: first unexplained line %s in %s" % (k, maxline, tr))
-    if summ["executions"] == 0: raise vlib.MachineryError("nothing explored")
+    if summ["executions"] == 0 and not v.violations: raise vlib.MachineryError("nothing explored")
     cov = {"states": tot["states"], "transitions": tot["transitions"], "traces_validated_against_impl": summ["traces_written"],
            "random_executions": summ["executions"], "scheduling_decisions": summ["yields"], "events_checked": summ["events"],
            "trace_lines_validated_by_tlc": summ["trace_lines"], "messages_handled": summ["messages_handled"], "messages_dropped_by_shutdown": summ["messages_dropped_by_shutdown"],
